@@ -467,6 +467,12 @@ class Weaver:
         # an explicit site replacement (R5/R7) wins over automatic rules that fall inside its span
         explicit = [(e[0], e[1]) for e in edits if e[5] == "R5/R7" and e[0] < e[1]]
         edits = [e for e in edits if e[5] == "R5/R7" or e[0] == e[1] or not any(a <= e[0] and e[1] <= b for (a, b) in explicit)]
+        # among explicit replacements, a statement-level one swallows the smaller ones strictly inside it (e.g. `.await` erasure)
+        edits = [e for e in edits if not (e[5] == "R5/R7" and e[0] < e[1] and any((a <= e[0] and e[1] <= b) and (a, b) != (e[0], e[1]) for (a, b) in explicit))]
+        # a zero-width insertion (hint) strictly inside a replaced span has lost its place
+        for e in edits:
+            if e[0] == e[1] and any(a < e[0] < b for (a, b) in explicit):
+                raise Lost("%s::%s: a hint anchor lies inside a replaced statement (line %d)" % (f, head["fn"], src.count("\n", 0, e[0]) + 1))
         edits.sort(key=lambda e: (e[0], 0 if e[0] == e[1] else 1, e[2], e[3]))
         # overlap check
         last_end = it.start
